@@ -214,6 +214,8 @@ class CtlSim:
             return
         self.serve_handles = self.loop.handles_run - h0
         self.serving_task = t
+        if getattr(self, "old_serving_task", None) is t:
+            self.violate("C19", "restart_same_task", "serve_forever() after a complete stop returned the old, finished serving task")
         self.ev("serving", self.serve_handles)
         if not isinstance(t, asyncio.Task):
             self.violate("C19", "serve_forever_result", f"serve_forever() returned {type(t).__name__}, not a Task")
@@ -323,6 +325,17 @@ class CtlSim:
         if self.server is not None:
             return
         self.server = self.make_server()
+        self.serve_driver = self.loop.create_task(self._drive_serve())
+
+    def _op_restart(self, st):
+        """serve_forever() again on the SAME server object after a complete stop."""
+        if self.server is None or self.serving_task is None or not self.serving_task.done():
+            return
+        self.stats["fault:server_restarted"] += 1
+        self.old_serving_task = self.serving_task
+        self.serving_task = None
+        self.stopped = False
+        self.restarted = True
         self.serve_driver = self.loop.create_task(self._drive_serve())
 
     def _op_connect(self, st):
@@ -459,6 +472,11 @@ class CtlSim:
             return [self._thaw(x) for x in v]
         return v
 
+    def _op_rebind(self, st):
+        """The dotted path tpsim.ctlworkers.alias is rebound to another function (like a reloaded module)."""
+        ctlworkers.alias = ctlworkers.job if ctlworkers.alias is ctlworkers.work else ctlworkers.work
+        self.stats["fault:dotted_path_rebound"] += 1
+
     def _op_run(self, st):
         self._run_handles(st.get("n", 1))
 
@@ -520,6 +538,7 @@ class CtlSim:
         old_argv = sys.argv
         try:
             ctlworkers.SIM = self
+            ctlworkers.alias = ctlworkers.work
             addr = self.address()
             sys.argv = ["prog", "unix", addr[1]] if addr[0] == "unix" else ["prog", "tcp", addr[1], str(addr[2])]
             cmod.input = self._cli_input
@@ -549,6 +568,7 @@ class CtlSim:
         finally:
             sys.stdout, sys.stderr = old_out, old_err
             sys.argv = old_argv
+            ctlworkers.alias = ctlworkers.work
             ctlworkers.SIM = old_sim
             for k, v in zip(("input", "print"), saved):
                 if v is None:
